@@ -930,7 +930,12 @@ namespace BitSerializer::Convert::Utf
 	/// <summary>
 	/// Allows to read streams in various UTF encodings with automatic detection.
 	/// </summary>
+#if defined(BITSERIALIZER_VERIF) && defined(BITSERIALIZER_VERIF_CHUNK_SIZE)
+	// Verification hook: smaller buffer lets short documents reach every alignment relative to the buffer boundary
+	template <typename TTargetCharType, size_t ChunkSize = BITSERIALIZER_VERIF_CHUNK_SIZE>
+#else
 	template <typename TTargetCharType, size_t ChunkSize = 256>
+#endif
 	class CEncodedStreamReader
 	{
 	public:
